@@ -35,7 +35,9 @@ INVALID = ["\\d", "a*?", "a+?", "a??", "(?i)a", "(?:a)", "(?=a)", "(?<n>a)", "[[
            "[a&&[b]]", "(*)"]
 DONTCARE = ["^a", "a$", "^a$", "[^]", "[b-a]", "[z-a]", "x[9-0]y", "[^z-a]", "a{2,1}", "(ab){3,2}", "a{7}", "a{1,99}", "a{10000}", "[a-c-]{2,1}"]
 SUBJ_ALPHA = ["a", "b", "A", "1", ".", "|", "&", "~", "-", "[", "]", " ", "\n", "\r", " ", "😀", "é", ",", "^", "(", "*", "\\",
-              "{", "=", "!", "_", "+", "$"]
+              "{", "=", "!", "_", "+", "$",
+              # what follows "(?" in other dialects, and other punctuation
+              "?", ":", "<", ">", "#", "P", ")", "'", '"', "/", ";", "%", "@"]
 
 
 CLASS_ITEMS = ["a", "b", "A", "1", ".", "|", "&", "~", "^", ",", "*", "+", "?", "(", ")", "{", "}", " ", "=", "!", "$", "😀", "é",
@@ -177,6 +179,20 @@ def run(chk: core.Check, tier: str, seed: int) -> None:
         recs.append(impl.rec_find(jp, f"$.s[?{fn}(@, $.p)]", doc, edoc=edoc))
         if rng.random() < 0.2:
             recs.append(impl.rec_find(jp, f"$.s[?!{fn}(@, {lit}) && {fn}($.p, @)]", doc, edoc=edoc))
+    # class membership, character by character: a class alone as the pattern, every probe character as a subject
+    probe = list(dict.fromkeys(SUBJ_ALPHA + ["c", "z", "Z", "0", "9", "\t", "}"]))
+    classes = [a for a in ATOMS if a.startswith("[")] + [rand_class(rng) for _ in range(150 if tier == "quick" else 4000)]
+    classes += ["[(]", "[^(]", "[()]", "[(?:a)]", "[a(]", "[)(]", "[(|)]", "[^)(]", "[(?]", "[:(]"]
+    for c in dict.fromkeys(classes):
+        doc = {"s": probe, "p": c}
+        try:
+            edoc = core.enc_value(doc)
+        except core.Unrepresentable:
+            continue
+        fn = rng.choice(["match", "search"])
+        recs.append(impl.rec_find(jp, f"$.s[?{fn}(@, {sp0.string(c)})]", doc, edoc=edoc))
+        if rng.random() < 0.3:
+            recs.append(impl.rec_find(jp, f"$.s[?match(@, $.p)]", doc, edoc=edoc))
     # patterns taken from the data: strings, and every non-string kind (arrays, objects, missing)
     data = [{"s": "ab", "re": "a."}, {"s": "ab", "re": ["a."]}, {"s": "ab", "re": {"a": "."}}, {"s": "ab"}, {"s": "ab", "re": None},
             {"s": "ab", "re": 1}, {"s": ["ab"], "re": "a."}, {"re": "a."}, {"s": "ab", "re": "a.", "x": 1}, {"s": "b", "re": True}]
